@@ -15,3 +15,9 @@ pub fn reload_id_from(raw: usize) -> ReloadId {
 pub fn reload_id_raw(id: ReloadId) -> usize {
     id.verif_raw()
 }
+
+/// Number of event batches the hot-reloading threads have finished handling (process-wide).
+pub static EVENTS_HANDLED: std::sync::atomic::AtomicUsize = std::sync::atomic::AtomicUsize::new(0);
+
+/// Number of reload passes (`run_update`) finished (process-wide).
+pub static PASSES_RUN: std::sync::atomic::AtomicUsize = std::sync::atomic::AtomicUsize::new(0);
